@@ -53,7 +53,20 @@ def pool():
         by_slot.setdefault(c & 0x3FFF, []).append((i, v))
         if v >= 12:
             high.append((i, v, c & ((1 << KEY_BITS) - 1)))
-    _POOL.update(cps=cps, by_slot=by_slot, high=high, high15=[h for h in high if h[1] >= 15])
+    # address twins: inputs whose coupons share the 26-bit address but differ in value (distinct coupons, same slot at every lg_k)
+    keyed = sorted(((c & ((1 << KEY_BITS) - 1)) << 20) | i for i, c in enumerate(cps))
+    twins = []
+    j = 0
+    while j < len(keyed):
+        k = j + 1
+        while k < len(keyed) and (keyed[k] >> 20) == (keyed[j] >> 20):
+            k += 1
+        if k - j >= 2:
+            grp = [x & ((1 << 20) - 1) for x in keyed[j:k]]
+            if len(set(cps[g] >> KEY_BITS for g in grp)) >= 2:
+                twins.append(grp)
+        j = k
+    _POOL.update(cps=cps, by_slot=by_slot, high=high, high15=[h for h in high if h[1] >= 15], twins=twins)
     return _POOL
 
 
@@ -219,6 +232,10 @@ class C03(Spec):
             base += [gen.rand_input(rng, uni, types) for _ in range(rng.choice([10, 40, 150, 400] if quick else [40, 400, 2000]))]
         if kind == "few":
             base += [gen.rand_input(rng, 50) for _ in range(rng.randrange(0, 30))]
+        if rng.random() < 0.35:
+            tw = pool()["twins"]
+            for _ in range(rng.choice([1, 3, 8])):
+                base += [("u64", str(x)) for x in rng.choice(tw)]
         cap = (600 if quick else 6000)
         if len(base) > cap:
             base = base[:cap] if rng.random() < 0.5 else rng.sample(base, cap)
@@ -279,7 +296,7 @@ class C03(Spec):
         return h
 
     def generate(self, rng, tier):
-        n = 140 if tier == "quick" else 900
+        n = 300 if tier == "quick" else 1500
         hs = [self.gen_history(rng, tier) for _ in range(n)]
         # boundary configurations
         hs.append(["new 0 3 8 0", "new 1 22 4 0", "new 2 4 4 1", "obs 2", "raw 2", "new 3 21 6 0", "upd 3 u64 1", "obs 3"])
@@ -309,6 +326,8 @@ class C03(Spec):
                 break
             if op == "upd":
                 c = cps[ci]; ci += 1
+            if o.strip() == "bad-op":
+                continue
             if o.strip() == "throw":
                 if op == "new" and 4 <= int(w[2]) <= 21:
                     bad.append(("valid-call-throws", l, i))
